@@ -96,6 +96,14 @@ func (setup *SetupServerController) Handle(in util.Container) (out util.Containe
 // - B: server public key
 // - s: salt
 func (setup *SetupServerController) handlePairStart(in util.Container) (util.Container, error) {
+	// Every exchange gets its own salt and key pair: with the ones of an
+	// earlier exchange the messages recorded there would be accepted again.
+	session, err := NewSetupServerSession(setup.device.Name(), setup.device.Pin())
+	if err != nil {
+		return nil, err
+	}
+	setup.session = session
+
 	out := util.NewTLV8Container()
 	setup.step = PairStepStartResponse
 
